@@ -404,7 +404,8 @@ PROPERTY_REGIONS = {
     "C11": ((SS + "write_frame", SS + "write_with_padding", SS + "start_client", SS + "open_stream", SS + "write_control_frame"), (), (SS + "write_with_padding", SS + "disable_buffering", SS + "start_client")),
     "C12": (("client::session_pool::", "<client::session_pool::"), (), ("client::session_pool::SessionPool::get_idle_session", "client::session_pool::SessionPool::add_idle_session", SS + "close")),
     "C13": (("client::client::Client::create_stream", "client::client::Client::create_new_session", "client::client::Client::create_proxy_stream", "client::session_pool::SessionPool::get_idle_session",
-             "client::session_pool::SessionPool::add_idle_session", "client::session_pool::SessionPool::cleanup_expired", "client::session_pool::SessionPool::start_cleanup_task"), (),
+             "client::session_pool::SessionPool::add_idle_session", "client::session_pool::SessionPool::cleanup_expired", "client::session_pool::SessionPool::start_cleanup_task"),
+            ("Fin", "SynAck", "Push", "HeartResponse", "ServerSettings"),      # ordinary traffic does not end the session it arrives on: a pooled session survives the end of its streams
             ("client::session_pool::SessionPool::get_idle_session", "client::session_pool::SessionPool::add_idle_session", SS + "close",
                                                                          "client::client::Client::create_new_session")),
     "C14": ((SS + "start_client", SS + "close", SS + "recv_loop", SS + "process_stream_data"), ("HeartRequest", "HeartResponse"), (SS + "close",)),
